@@ -410,3 +410,7 @@ where
         ValueStoreSet::new(projection, value)
     }
 }
+
+#[cfg(kani)]
+#[path = "/verif/kani/swimos_agent/value_store.rs"]
+mod verif_kani;
